@@ -200,6 +200,60 @@ fn emit_pair_f64(z: &Complex<f64>, w: &Complex<f64>, exact: bool, cid: i64, out:
     out.ev(e);
 }
 
+// ------------------------------------------------------------------ soak: call-count dependence
+/// n guarded calls of one operation on four fixed inexact operand pairs (no per-call logging); every result is compared
+/// bit for bit with what the FIRST call on the same operands returned.  One summary event per operation.
+fn soak_one(name: &str, n: usize, cid: i64, out: &mut Out, f: &dyn Fn(usize) -> (u64, u64)) {
+    let mut first: [Option<(u64, u64)>; 4] = [None; 4];
+    let (mut panics, mut diffs, mut first_bad) = (0i64, 0i64, -1i64);
+    for k in 0..n {
+        match guarded(|| f(k % 4)) {
+            Ok(r) => match first[k % 4] { None => first[k % 4] = Some(r), Some(r0) => if r0 != r { diffs += 1; if first_bad < 0 { first_bad = k as i64; } } },
+            Err(_) => { panics += 1; if first_bad < 0 { first_bad = k as i64; } }
+        }
+    }
+    out.ev(json!({"op": "soak", "ty": "f64", "name": name, "cid": cid, "n": n as i64, "panics": panics, "diffs": diffs, "first_bad": first_bad}));
+}
+const SOAK_OPS: [&str; 29] = ["add", "sub", "mul", "div", "neg", "conj", "abs_sqr", "add_r", "sub_r", "mul_r", "div_r", "r_mul",
+    "add_assign", "sub_assign", "mul_assign", "div_assign", "add_assign_r", "sub_assign_r", "mul_assign_r", "div_assign_r",
+    "eq", "ne", "lt", "le", "gt", "ge", "partial_cmp", "zero", "one"];
+fn soak_all(n: usize, cid: i64, out: &mut Out) {
+    // general (inexact) f64 operands: no product, quotient or sum of them is exactly representable
+    // (deterministic search: only pairs for which neither (z/w)*w nor (z*w)/w reproduces z bit for bit are used, so that
+    //  a self-check of the form q*w == z cannot hold on any of them)
+    let mut zs = [Complex::new(0.0, 0.0); 4]; let mut ws = zs; let (mut found, mut t) = (0usize, 0.0f64);
+    while found < 4 {
+        t += 1.0;
+        let z = Complex::new(1.1 + 0.37 * t, 3.3 - 0.91 * t * t * 1e-1); let w = Complex::new(0.7 - 0.13 * t, -2.1 + 0.057 * t);
+        let (q, p) = (z / w, z * w);
+        let ne = |a: Complex<f64>, b: Complex<f64>| a.real != b.real && a.imag != b.imag;
+        if ne(q * w, z) && ne(p / w, z) && ne(w * q, z) { zs[found] = z; ws[found] = w; found += 1; }
+    }
+    // comparison operands: a general pair, a second one, a tie in the real part only, and equal operands
+    let cw = [ws[0], ws[1], Complex::new(zs[2].real, ws[2].imag), zs[3]];
+    let cb = |z: Complex<f64>| (z.real.to_bits(), z.imag.to_bits());
+    let bb = |b: bool| (b as u64, 0u64);
+    for name in SOAK_OPS {
+        let f: Box<dyn Fn(usize) -> (u64, u64)> = match name {
+            "add" => Box::new(|k| cb(zs[k] + ws[k])), "sub" => Box::new(|k| cb(zs[k] - ws[k])),
+            "mul" => Box::new(|k| cb(zs[k] * ws[k])), "div" => Box::new(|k| cb(zs[k] / ws[k])),
+            "neg" => Box::new(|k| cb(-zs[k])), "conj" => Box::new(|k| cb(zs[k].conj())), "abs_sqr" => Box::new(|k| (zs[k].abs_sqr().to_bits(), 0)),
+            "add_r" => Box::new(|k| cb(zs[k] + ws[k].real)), "sub_r" => Box::new(|k| cb(zs[k] - ws[k].real)),
+            "mul_r" => Box::new(|k| cb(zs[k] * ws[k].real)), "div_r" => Box::new(|k| cb(zs[k] / ws[k].real)), "r_mul" => Box::new(|k| cb(ws[k].real * zs[k])),
+            "add_assign" => Box::new(|k| { let mut a = zs[k]; a += ws[k]; cb(a) }), "sub_assign" => Box::new(|k| { let mut a = zs[k]; a -= ws[k]; cb(a) }),
+            "mul_assign" => Box::new(|k| { let mut a = zs[k]; a *= ws[k]; cb(a) }), "div_assign" => Box::new(|k| { let mut a = zs[k]; a /= ws[k]; cb(a) }),
+            "add_assign_r" => Box::new(|k| { let mut a = zs[k]; a += ws[k].real; cb(a) }), "sub_assign_r" => Box::new(|k| { let mut a = zs[k]; a -= ws[k].real; cb(a) }),
+            "mul_assign_r" => Box::new(|k| { let mut a = zs[k]; a *= ws[k].real; cb(a) }), "div_assign_r" => Box::new(|k| { let mut a = zs[k]; a /= ws[k].real; cb(a) }),
+            "eq" => Box::new(|k| bb(zs[k] == cw[k])), "ne" => Box::new(|k| bb(zs[k] != cw[k])), "lt" => Box::new(|k| bb(zs[k] < cw[k])),
+            "le" => Box::new(|k| bb(zs[k] <= cw[k])), "gt" => Box::new(|k| bb(zs[k] > cw[k])), "ge" => Box::new(|k| bb(zs[k] >= cw[k])),
+            "partial_cmp" => Box::new(|k| (match zs[k].partial_cmp(&cw[k]) { Some(Ordering::Less) => 1, Some(Ordering::Equal) => 2, Some(Ordering::Greater) => 3, None => 0 }, 0)),
+            "zero" => Box::new(|_| cb(Complex::<f64>::zero())), _ => Box::new(|_| cb(Complex::<f64>::one())),
+        };
+        soak_one(name, n, cid, out, &*f);
+    }
+    out.ev(json!({"op": "soak_end", "ty": "f64", "cid": cid, "names": SOAK_OPS.to_vec()}));
+}
+
 pub fn exec(case: &Value, out: &mut Out) {
     let cid = geti(case, "cid");
     match gets(case, "kind") {
@@ -230,6 +284,7 @@ pub fn exec(case: &Value, out: &mut Out) {
             let w = Complex::new(from_hex(&case["wb"][0]), from_hex(&case["wb"][1]));
             emit_pair_f64(&z, &w, false, cid, out);
         }
+        "soak" => soak_all(geti(case, "n") as usize, cid, out),
         k => { eprintln!("TOOL-ERROR unknown cfield case kind {}", k); std::process::exit(2) }
     }
 }
@@ -293,6 +348,8 @@ pub fn gen(tier: &str, seed: u64, out: &mut Out) {
         if k % 9 == 4 { push(out, json!({"kind": "wide", "zb": z.clone(), "wb": z})); continue; }
         push(out, json!({"kind": "wide", "zb": z, "wb": w}));
     }
+    // (s) call-count dependence: 2^20 + 64 consecutive calls of every operation (counts 255..257, 65535..65537 on the way)
+    push(out, json!({"kind": "soak", "n": (1 << 20) + 64}));
     // (d) components of very different magnitude (ratios 1e-6 .. 1e-20, either component, either or both operands):
     //     the small component of a product / quotient must be accurate on its own (componentwise units)
     let hex = |re: f64, im: f64| -> [String; 2] { [bits(re), bits(im)] };
